@@ -129,14 +129,29 @@ def h15c_merged_neighbour(row, col, side, older):
 
 
 # ------------------------------------------------------------------------------------------------ saved stroke layers
-class Run:
-    """a stroke run record (StrokeRunArchive seen as an attribute bag): origin, length, order, and the Border it carries"""
+class Appearance:
+    """the `stroke` sub-message of a run (width, colour, pattern): here simply the Border it was made from"""
 
-    def __init__(self, origin=0, length=0, order=0, border=None):
-        self.origin, self.length, self.order, self.border = origin, length, order, border
+    def __init__(self, border=None):
+        self.border = border
 
     def CopyFrom(self, other):
-        self.origin, self.length, self.order, self.border = other.origin, other.length, other.order, other.border
+        self.border = other.border
+
+
+class Run:
+    """a stroke run record (StrokeRunArchive seen as an attribute bag): origin, length, order, and the stroke it shows"""
+
+    def __init__(self, origin=0, length=0, order=0, border=None):
+        self.origin, self.length, self.order, self.stroke = origin, length, order, Appearance(border)
+
+    @property
+    def border(self):
+        return self.stroke.border
+
+    def CopyFrom(self, other):
+        self.origin, self.length, self.order = other.origin, other.length, other.order
+        self.stroke = Appearance(other.stroke.border)
 
 
 def new_run(eng=None, *a, **kw):
@@ -215,6 +230,9 @@ def h15d_layers(cfg, o1, l1, o2, l2, o3, l3):
     assert layer.row_column_index == 2
     for run in layer.stroke_runs:
         assert run.length >= 1 and 0 <= run.origin and run.origin + run.length <= LINE
+        # the ordering stamp stored with a run is that of the stroke the run shows (precedence between the two layers
+        # that share an edge is decided by these stamps)
+        assert run.order == run.stroke.border._order
     for p in range(LINE):
         want = None
         for (o, ln), b in zip(strokes, borders):
